@@ -1,9 +1,9 @@
 #!/bin/sh
 # usage: seed_eval_all.sh Cxx [wave]  -> evaluates /tmp/wt<wave>_Cxx/seed/m1 and m2 sequentially (with the test-suite comparison)
-#        and keeps them under seeded/Cxx-m1,m2 (wave 1) or seeded/Cxx-m3,m4 (wave 2)
+#        and keeps them under seeded/Cxx-m1,m2 (wave 1) or seeded/Cxx-m3,m4 (wave 2), m5,m6 (3), m7,m8 (4), m9,m10 (5)
 P=$1
 W=${2:-}
-if [ "$W" = "2" ]; then WT=/tmp/wt2_$P; A=m3; B=m4; elif [ "$W" = "3" ]; then WT=/tmp/wt3_$P; A=m5; B=m6; elif [ "$W" = "4" ]; then WT=/tmp/wt4_$P; A=m7; B=m8; else WT=/tmp/wt_$P; A=m1; B=m2; fi
+if [ "$W" = "2" ]; then WT=/tmp/wt2_$P; A=m3; B=m4; elif [ "$W" = "3" ]; then WT=/tmp/wt3_$P; A=m5; B=m6; elif [ "$W" = "4" ]; then WT=/tmp/wt4_$P; A=m7; B=m8; elif [ "$W" = "5" ]; then WT=/tmp/wt5_$P; A=m9; B=m10; else WT=/tmp/wt_$P; A=m1; B=m2; fi
 for pair in m1:$A m2:$B; do
   m=${pair%%:*}; k=${pair##*:}
   if [ -f $WT/seed/$m/patch.diff ]; then
